@@ -14,7 +14,8 @@ ANCHOR_FILES = ["aw_datastore/migration.py"]
 REQUIRED_COUNTERS = ["migrations_triggered", "events_compared", "buckets_compared"]
 RULE = ("legacy databases built by the real PeeweeStorage at its default path inside a private XDG_DATA_HOME: 0-6 "
         "buckets (unicode ids, data dicts, with/without name, explicit creation instants), 0-300 events each "
-        "(generated instants/durations/JSON data; ids overlap across buckets; 100-row chunk boundaries crossed), in "
+        "(generated instants/durations/JSON data; ids overlap across buckets; 100-row chunk boundaries crossed) and a few "
+        "per cent with 999-5000 time-clustered, overlapping events (page / batch boundaries of any size up to 5000), in "
         "the normal and the testing profile, sometimes with the OTHER profile's legacy file present too; then "
         "SqliteStorage is created at its default location, which triggers the migration; bucket sets, metadata and "
         "per-bucket event multisets are compared and the legacy file is hashed before and after; evaluations = "
@@ -29,7 +30,7 @@ IDS = ["aw-watcher-window_host", "aw-watcher-afk_host", "ünï-日本", "with sp
 
 
 def plan(tier):
-    return dict(workers=16, cases=3_200 if tier == "quick" else 60_000, time_s=45 if tier == "quick" else 900)
+    return dict(workers=16, cases=2_000 if tier == "quick" else 60_000, time_s=45 if tier == "quick" else 900)
 
 
 def setup(ctx):
@@ -49,10 +50,20 @@ def gen_case(rng, ctx):
     uid = 0
     for bid in rng.sample(IDS, nb):
         n = rng.choice([0, 1, 2, 5, 40, 99, 100, 101, 250, 300]) if rng.random() < 0.5 else rng.randrange(0, 12)
+        big = rng.random() < (0.04 if ctx.tier == "quick" else 0.08)
+        if big:
+            # years of events in one bucket (any paging / batching in the migration has to cross its boundaries),
+            # clustered in time so that long events overlap many others and timestamps tie
+            n = rng.choice([999, 1000, 1001, 1500, 2500, 5000])
+            base = rand_instant(rng, 10**15, 3 * 10**15) // 1000 * 1000
         evs = []
         for _ in range(n):
             uid += 1
             s = rand_event_spec(rng, depth=2)
+            if big:
+                s["ts"] = base + rng.randrange(0, 2000) * 60 * 10**6
+                s["dur"] = rng.choice([0, 1000, 60 * 10**6, 3600 * 10**6, 20 * 3600 * 10**6, rng.randrange(0, 10**9)])
+                s["data"] = {"app": rng.choice(["a", "b"])}
             s["data"]["uid"] = uid
             evs.append(s)
         b = dict(id=bid, type=rng.choice(["t", "currentwindow"]), client="c-" + bid[:3], hostname=rng.choice(["h", "ünï"]), events=evs)
@@ -168,6 +179,6 @@ def run_case(case, ctx):
         shutil.rmtree(root, ignore_errors=True)
     nb = len(case["buckets"])
     ne = sum(len(b["events"]) for b in case["buckets"])
-    sig = (testing, min(nb, 3), 0 if ne == 0 else (1 if ne < 100 else (2 if ne < 300 else 3)),
+    sig = (testing, min(nb, 3), 0 if ne == 0 else (1 if ne < 100 else (2 if ne < 300 else (3 if ne < 999 else 4))),
            any("data" in b for b in case["buckets"]), any("name" in b for b in case["buckets"]), case["other_profile"])
     return viols, dict(sig=sig, nontrivial=ne > 0)
